@@ -29,6 +29,17 @@ def main(argv: list[str] | None = None) -> int:
         print(f"no check for {a.prop}", file=sys.stderr)
         return 2
     pname = profiles.PROPERTY_PROFILE[a.prop]
+    if pname == "crash" and "fsv_shim.so" not in os.environ.get("LD_PRELOAD", ""):
+        # crash points inside engine calls need the syscall seam: re-exec under the LD_PRELOAD shim (built on demand)
+        shim = os.path.join(runner.VERIF, "build", "fsv_shim.so")
+        src = os.path.join(runner.VERIF, "fssim", "shim", "fsv_shim.c")
+        if not os.path.exists(shim) or os.path.getmtime(shim) < os.path.getmtime(src):
+            import subprocess
+
+            os.makedirs(os.path.dirname(shim), exist_ok=True)
+            subprocess.run(["gcc", "-shared", "-fPIC", "-O1", "-o", shim, src, "-ldl"], check=True)
+        env = dict(os.environ, LD_PRELOAD=shim)
+        os.execve(sys.executable, [sys.executable, "-W", "ignore", "-c", "import sys; from fssim.cli import main; sys.exit(main())", *(argv if argv is not None else sys.argv[1:])], env)
     if a.replay:
         return runner.replay_file(a.replay, pname, a.prop)
     # the parent never imports duckdb/fakesnow: read the SPEC without importing the profile's deps
